@@ -82,3 +82,6 @@ def classify_c12(line):
         return 'contains.poly.contact.not-invariant'
     except Exception:
         return None
+
+def classify_c09(line):
+    return None
